@@ -322,3 +322,11 @@ func sqlOf(nodes []ast.Node) (s string, panicked any) {
 	}
 	return strings.Join(parts, ";\n"), nil
 }
+
+// lastStep returns the last field step of a reflection path (".A.B[3]" -> "B[3]").
+func lastStep(p string) string {
+	if i := strings.LastIndex(p, "."); i >= 0 {
+		return p[i+1:]
+	}
+	return p
+}
